@@ -316,8 +316,29 @@ def shard(arg):
         if case.get('then') and not any(o[0] == 'skip' for o in real['inline_then'] + real['runtime_then']):
             seq_at[i] = len(lines)
             lines.extend(seq_lines(case))
+    lseq_at = {}
+    for i, (case, real, _, _) in enumerate(evald):
+        if real.get('load_seq') is not None:
+            lseq_at[i] = len(lines)
+            lines.append(proto.line(Atom('C11'), Atom('loads'), w_files(case),
+                                    [[n, Atom(G.kind_of_file(case, n))] for n in G.load_order(case)]))
     answers = proto.run_lines(lines)
     for i, (case, real, spec, fail) in enumerate(evald):
+        if i in lseq_at and answers[lseq_at[i]] != 'unmodelled':
+            # preparation alone: every file (and a missing name) loaded in turn through one loader with auto_reload off,
+            # nothing rendered -- outcome and the loader's prepared templates after each load, failed preparations included
+            ml = []
+            for item in _split_top(answers[lseq_at[i]].split()):
+                o, c = _split_top(item)
+                o = ' '.join(o)
+                ml.append(['ok' if o == 'ok' else model_outcome(o)[1], sorted(str(x) for x in proto.dec(' '.join(c)))])
+            res.streams['load-sequence'] = res.streams.get('load-sequence', 0) + 1
+            for o, c in real['load_seq']:
+                if o == 'TemplateSyntaxError':
+                    res.count('load-sequence:failed-preparation:%d-prepared-so-far' % min(len(c), 3))
+            if ml != real['load_seq']:
+                res.disagreements.append({'stream': 'load-sequence', 'case': case, 'model': repr(ml)[:600],
+                                          'real': repr(real['load_seq'])[:600], 'sources': sources(case)})
         if i in seq_at:
             res.count('requests-through-one-loader:%d' % len(G.requests(case)))
             for j, m in enumerate(('inline', 'runtime')):
